@@ -51,12 +51,7 @@ Record ohb := mk_ohb { oviews : nat -> view;      (* per thread *)
                        orel : nat -> view }.      (* per once word: release view of its current value *)
 Definition ohb0 : ohb := mk_ohb (fun _ => vbot) (fun _ => vbot).
 
-(* the once word the thread's next site is on *)
-Definition pc_obj (p : opc) : option nat :=
-  match p with
-  | OIdle => None
-  | OEntry o _ | OImplLoad o _ | OCas o _ | OReload o _ | ORunning o _ | OWaitLoad o _ => Some o
-  end.
+(* the once word the thread's next site is on: [pc_obj] of Model/OnceModel.v *)
 
 (* effect of one OnceModel event of thread t, on once word x, on the happens-before state *)
 Definition ohb_step (h : ohb) (t : nat) (x : option nat) (e : ev) : ohb :=
@@ -71,6 +66,8 @@ Definition ohb_step (h : ohb) (t : nat) (x : option nat) (e : ev) : ohb :=
       mk_ohb (fupd (oviews h) t v)
              (if has_rel (once_order_of Kcas s) then fupd (orel h) o (vjoin (orel h o) v) else orel h)
   | _, _ => mk_ohb (fupd (oviews h) t vt) (orel h)
+      (* a failed CAS; and every step of OnceModel that is not an access to the once word: f-begin / f-end, and the abstract
+         steps on once_mu / once_cv (lock, unlock, broadcast, timed wait), which get NO ordering credit *)
   end.
 
 (* run the model and the instrumentation together; per step: thread, world before and after, event,
@@ -86,9 +83,13 @@ Fixpoint run_hb_once (w : world) (h : ohb) (sched : list nat) : list oobs :=
       mk_oobs t w w' e (oviews h t) (oviews h' t) :: run_hb_once w' h' rest
   end.
 
-(* ---------- vocabulary of the statements: the model's own ghost fields ---------- *)
-(* the step at which the once-function of word o has finished: the winner's ATM_STORE_REL (once, 2) *)
+(* ---------- vocabulary of the statements: the model's own state ---------- *)
+(* the step at which the word of object o takes the value 2: the winner's ATM_STORE_REL (once, 2) *)
 Definition once_publishes (o : nat) (ob : oobs) : Prop :=
+  once (ob_w ob) o <> 2 /\ once (ob_w' ob) o = 2.
+(* the step at which the once-function of word o returns to nsync_run_once_impl (the model's ghost [completed] flips):
+   OnceModel's f-end step, which the winner makes BEFORE its store of 2 (Props/Properties_C07.v, C07_order) *)
+Definition once_fn_ends (o : nat) (ob : oobs) : Prop :=
   completed (ob_w ob) o = false /\ completed (ob_w' ob) o = true.
 (* a step at which a call of nsync_run_once / _arg / _spin / _arg_spin on word o returns to its caller *)
 Definition once_returns (o : nat) (ob : oobs) : Prop :=
